@@ -390,7 +390,7 @@ def run(ctx, deep=False):
                 case = {"ops": ops, "eoc": eoc}
         cases.append(case)
         impl_out.append("|".join(recs) if recs else "-")
-        reqs.append("sess run %d %s" % (1 if eoc else 0, ";".join(ops) if ops else "-"))
+        reqs.append("sesstxn run %d %s" % (1 if eoc else 0, ";".join(ops) if ops else "-"))
 
     for s in FIXED:
         for eoc in (True, False):
